@@ -137,7 +137,22 @@ def gen_doc(rng, crlf=False):
                 d.nuse += 1
                 uid = d.nuse
                 uses[uid] = {"name": n, "scope": cs, "executed": True}
-                d.add(indent + 1, ['_c%d = [emit("U", %d, ' % (uid, uid), ("use", n, cs, uid), ") for ", ("bind", n, cs, None), ' in ["%s@%s"]]' % (n, cs)])
+                # the iterable of the first `for` clause is evaluated in the enclosing scope: there the same name,
+                # when it is readable, denotes the outer variable although the comprehension rebinds it
+                outer = None
+                for entry in reversed(chain):
+                    if n in entry[1]:
+                        if len(entry) <= 2 or n in entry[2]:
+                            outer = entry[0]
+                        break
+                if outer is not None and rng.random() < 0.6:
+                    d.nuse += 1
+                    uid2 = d.nuse
+                    uses[uid2] = {"name": n, "scope": outer, "executed": True}
+                    d.add(indent + 1, ['_c%d = [emit("U", %d, ' % (uid, uid), ("use", n, cs, uid), ") for ", ("bind", n, cs, None), ' in [emit("U", %d, ' % uid2,
+                                       ("use", n, outer, uid2), '), "%s@%s"][1:]]' % (n, cs)])
+                else:
+                    d.add(indent + 1, ['_c%d = [emit("U", %d, ' % (uid, uid), ("use", n, cs, uid), ") for ", ("bind", n, cs, None), ' in ["%s@%s"]]' % (n, cs)])
         for n in sorted(local - assigned):
             bind(indent + 1, n, scope)
         # a lambda with a parameter
